@@ -23,7 +23,22 @@ impl Family {
 		}
 	}
 	pub const BOTH: [Family; 2] = [Family::Uri, Family::Iri];
+
+	/// The families a driver pass ranges over: both, or the IRI family only during a wide pass.
+	pub fn active() -> Vec<Family> {
+		if IRI_ONLY.load(std::sync::atomic::Ordering::Relaxed) {
+			vec![Family::Iri]
+		} else {
+			vec![Family::Uri, Family::Iri]
+		}
+	}
+
+	pub fn set_iri_only(v: bool) {
+		IRI_ONLY.store(v, std::sync::atomic::Ordering::SeqCst);
+	}
 }
+
+static IRI_ONLY: std::sync::atomic::AtomicBool = std::sync::atomic::AtomicBool::new(false);
 
 #[derive(Clone, Copy, PartialEq, Eq, Debug, Hash, PartialOrd, Ord)]
 pub enum Kind {
@@ -154,6 +169,10 @@ pub mod uri {
 			("HashSet<UriBuf>(all).contains(&Iri)", hs.contains(i)),
 			("HashSet<UriBuf>(all).contains(&IriRef)", hs.contains(ir)),
 		]
+	}
+	/// The URI family has no public constructor of a path handle over a raw buffer.
+	pub fn raw_path_handle(_text: &[u8], _start: usize, _end: usize, _f: &mut dyn FnMut(&mut PathMut)) -> Option<(Vec<u8>, Vec<u8>)> {
+		None
 	}
 	/// Comparisons with byte strings (URI family only).
 	pub fn extra_str_eq(kind: super::Kind, t: &[u8], u: &str) -> Vec<(&'static str, bool)> {
@@ -309,6 +328,17 @@ pub mod iri {
 	pub fn extra_views(_t: &[u8], _probs: &mut Vec<(String, String)>) {}
 	pub fn extra_collection_lookups(_t: &[u8], _bt: &std::collections::BTreeSet<RiBuf>, _hs: &std::collections::HashSet<RiBuf>) -> Vec<(&'static str, bool)> {
 		Vec::new()
+	}
+	/// `iri::PathMut::new` (public, unsafe): a handle over the path range of a raw buffer holding a
+	/// valid IRI reference. Returns (buffer text, text the handle derefs to) after `f`.
+	pub fn raw_path_handle(text: &[u8], start: usize, end: usize, f: &mut dyn FnMut(&mut PathMut)) -> Option<(Vec<u8>, Vec<u8>)> {
+		let mut buf = text.to_vec();
+		let view = {
+			let mut h = unsafe { PathMut::new(&mut buf, start, end) };
+			f(&mut h);
+			h.as_bytes().to_vec()
+		};
+		Some((buf, view))
 	}
 	/// Comparisons of the owned IRI path with strings (IRI family only).
 	pub fn extra_str_eq(kind: super::Kind, t: &[u8], u: &str) -> Vec<(&'static str, bool)> {
